@@ -243,7 +243,7 @@ def ref_win(fd, fpo, addr, callee, mem, gcps, hasgc):
 class C07(PropBase):
     pid = "C07"
     coq_dirs = ["Base", "Gen", "C06", "C07", "C08", "C09", "C11"]
-    translators = ["c07_walker_args.py", "c07_win_eval.py"]
+    translators = ["c07_walker_args.py", "c07_win_eval.py", "c07_win_line.py"]
     bins = ["c07"]
     rule = ("case = STACK WIN records (+ optionally one STACK CFI INIT record), lookup address, callee x86 registers, grand-callee "
             "parameter size, memory image; walked (A) by SymbolFile::walk_frame with a 32-bit mock FrameWalker, (B) by one x86 "
